@@ -108,6 +108,7 @@ Proof.
   destruct timer, na, more, rq, pie, (s_enabled s) eqn:Een, (s_fms s) eqn:Efm;
   cbn [negb andb orb];
   try (destruct (s_ka s =? 1) eqn:Ek1); try (destruct (1 <? s_ka s) eqn:Ek2); cbn [negb andb orb];
+  rewrite ?Ht1, ?Ht2; cbn [bind];
   (eexists; eexists; split; [reflexivity|]);
   (split; [first [ apply same_but_sm_refl | exact F1 | exact F2'
                  | (eapply same_but_sm_trans; [exact F1|]; sm_setter)
